@@ -159,7 +159,7 @@ Definition is_content (m : cand) : bool := negb (c_fn m).
 Definition fill_matches (nls : newlines) (data name : list N) (ctx : Z) (ms : list cand)
   : outcome (list linematch) :=
   match filter is_content ms with
-  | _ :: _ as cms => do b <- break_matches data cms; fill_content_matches nls data ctx b
+  | (_ :: _) as cms => do b <- break_matches data cms; fill_content_matches nls data ctx b
   | [] => Ok [ {| lm_line := name; lm_start := 0; lm_end := 0; lm_num := 0%Z;
                   lm_before := []; lm_after := []; lm_fn := true;
                   lm_frags := map (fun m => {| f_lineoff := Z.of_nat (c_off m); f_off := c_off m;
@@ -262,7 +262,7 @@ Fixpoint name_ranges (name : list N) (ms : list cand) : outcome (list (loc * loc
 Definition fill_chunk_matches (nls : newlines) (data name : list N) (ctx : Z) (ms : list cand)
   : outcome (list chunkmatch) :=
   match filter is_content ms with
-  | _ :: _ as cms => fill_content_chunk_matches nls data ctx cms
+  | (_ :: _) as cms => fill_content_chunk_matches nls data ctx cms
   | [] => do rg <- name_ranges name ms;
           Ok [ {| cm_content := name; cm_start := {| l_off := 0; l_line := 1; l_col := 1 |};
                   cm_ranges := rg; cm_fn := true |} ]
@@ -338,7 +338,8 @@ Inductive c03case :=
 | K_col (data : list N) (calls : list (N * N)) (res : list (option N))   (* columnHelper.get sequence *)
 | K_brk (text : list N) (ms : list (bool * N * N)) (res : option (list (bool * N * N)))
 | K_chunk (content : list N) (ctx : Z) (ms : list (bool * N * N)) (res : list ch_row)
-| K_lm (content name : list N) (ctx : Z) (ms : list (bool * N * N)) (res : option (list lm_row))
+| K_lm (content name : list N) (ctx : Z) (direct : bool) (ms : list (bool * N * N)) (res : option (list lm_row))
+      (* direct = fillContentMatches called without breakMatchesOnNewlines *)
 | K_cm (content name : list N) (ctx : Z) (ms : list (bool * N * N)) (res : option (list cm_row)).
 
 Definition cand_row_eqb (a b : bool * N * N) : bool :=
@@ -359,9 +360,11 @@ Definition c03_ok (c : c03case) : bool :=
       opt_eqb (list_eqb cand_row_eqb) (do r <- break_matches text (map mk_cand ms); Ok (map cand_out r)) res
   | K_chunk content ctx ms res =>
       list_eqb ch_row_eqb (map ch_out (chunk_candidates (newlines_of content) ctx (map mk_cand ms))) res
-  | K_lm content name ctx ms res =>
+  | K_lm content name ctx direct ms res =>
       opt_eqb (list_eqb lm_row_eqb)
-              (do r <- fill_matches (newlines_of content) content name ctx (map mk_cand ms); Ok (map lm_out r)) res
+              (do r <- (if direct then fill_content_matches (newlines_of content) content ctx (map mk_cand ms)
+                        else fill_matches (newlines_of content) content name ctx (map mk_cand ms));
+               Ok (map lm_out r)) res
   | K_cm content name ctx ms res =>
       opt_eqb (list_eqb cm_row_eqb)
               (do r <- fill_chunk_matches (newlines_of content) content name ctx (map mk_cand ms); Ok (map cm_out r)) res
